@@ -1,0 +1,34 @@
+//go:build verif
+
+package pokertable
+
+import (
+	"github.com/weedbox/pokertable/open_game_manager"
+	"github.com/weedbox/pokertable/seat_manager"
+)
+
+// Read-only accessors used by the verification harness (build tag "verif").
+
+// VerifSeatManager returns the seat manager of a table engine (nil before CreateTable).
+func VerifSeatManager(te TableEngine) seat_manager.SeatManager {
+	if e, ok := te.(*tableEngine); ok {
+		return e.sm
+	}
+	return nil
+}
+
+// VerifOpenGameManager returns the open-game manager of a table engine (nil before CreateTable).
+func VerifOpenGameManager(te TableEngine) open_game_manager.OpenGameManager {
+	if e, ok := te.(*tableEngine); ok {
+		return e.ogm
+	}
+	return nil
+}
+
+// VerifIsReleased reports whether ReleaseTable has been called on the engine.
+func VerifIsReleased(te TableEngine) bool {
+	if e, ok := te.(*tableEngine); ok {
+		return e.isReleased
+	}
+	return false
+}
